@@ -20,3 +20,11 @@ package saslauthenticate
 //@ wire Response
 //@   layout v0 ErrorCode int16, ErrorMessage string?, AuthBytes bytes
 //@   layout v1 ErrorCode int16, ErrorMessage string?, AuthBytes bytes, SessionLifetimeMs int64
+
+//@ property C20 C18
+
+// The raw (SaslHandshake v0) exchange reads a length-prefixed token from the broker: the length is checked before it is
+// used as an allocation size.
+//@ func (*Request).readResp
+//@   option noframe
+//@   modifies heap
